@@ -323,7 +323,7 @@ def call_ext(it, name, args, kwargs, node):
     from .ops import tensor_binop, shape_val, val_of_dim, dim_of, is_number
     from .interp import RaiseEx
 
-    rec = [name, list(args), dict(kwargs), it.site(node), None]
+    rec = [name, list(args), dict(kwargs), it.site(node), None, tuple(it.stack)]  # [5]: the functions on the stack
     it.ext_calls.append(rec)
     try:
         r = _call_ext(it, name, args, kwargs, node)
@@ -343,6 +343,26 @@ def _call_ext(it, name, args, kwargs, node):
         from .values import VPartial
 
         return VPartial(args[0], args[1:], kwargs)
+    if n == "collections.namedtuple" and len(args) >= 2:
+        ok_, tn = const_of(args[0])
+        fl = it.concrete_items(args[1])
+        if fl is None and const_of(args[1])[0] and isinstance(const_of(args[1])[1], str):
+            fl = [VConst(x) for x in const_of(args[1])[1].replace(",", " ").split()]
+        if fl is not None and all(const_of(x)[0] and isinstance(const_of(x)[1], str) for x in fl):
+            inst = Instance(None)
+            inst.ext = "collections.namedtuple"
+            inst.attrs["fields"] = [const_of(x)[1] for x in fl]
+            inst.attrs["typename"] = tn if ok_ else "namedtuple"
+            return VObj(inst)
+    if n == "functools.reduce" and len(args) >= 2:
+        items = it.concrete_items(args[1])
+        if items is not None and (len(args) > 2 or items):
+            acc = args[2] if len(args) > 2 else items[0]
+            for x in (items if len(args) > 2 else items[1:]):
+                acc = it.call_value(args[0], [acc, x], {}, node)
+            return acc
+    if n in ("operator.mul", "operator.add", "operator.sub", "operator.truediv", "operator.floordiv") and len(args) == 2:
+        return binop(it, {"mul": "Mult", "add": "Add", "sub": "Sub", "truediv": "Div", "floordiv": "FloorDiv"}[n.split(".")[1]], args[0], args[1], node)
     if n.startswith("numpy."):
         return call_numpy(it, n[6:], args, kwargs, node)
     if n.startswith("builtins."):
@@ -461,9 +481,26 @@ def _call_ext(it, name, args, kwargs, node):
             if items is None:
                 u = VUnknown("chain", "iter")
                 u.sources = list(srcs)
+                k_ = list(srcs).index(a)
+                if k_ == len(srcs) - 1 and getattr(a, "endless", False):
+                    # [x0, ...] followed by an endless tail: the head, then the tail's element forever
+                    head = list(out)
+                    u.endless = True
+                    u.elem_first = (lambda h=head, a=a: h[0] if h else it.loop_elem(a, True, node))
+                    if len(head) <= 1:
+                        u.elem = (lambda a=a: it.loop_elem(a, False, node))
                 return u
             out.extend(items)
         return VIter(out)
+    if n == "itertools.repeat" and len(args) == 1:
+        u = VUnknown("repeat", "iter")
+        u.endless = True
+        u.elem = args[0]
+        return u
+    if n == "itertools.count":
+        u = VUnknown("count", "iter")
+        u.endless = True
+        return u
     if n == "warnings.warn":
         return VConst(None)
     if n == "copy.deepcopy" or n == "copy.copy":
@@ -718,6 +755,12 @@ def _call_torch(it, f, args, kwargs, node):
             it.shape_errors.append((it.site(node), str(e)))
             shape = None
         return it.fresh(T.atan2(ta, tb) if ta is not None and tb is not None else None, shape, "tensor", node)
+    if f == "split" and len(args) >= 2 and isinstance(args[0], VTens):
+        from .ops_tensor import split_list
+
+        r = split_list(it, args[0], args[1], ext_arg(args, kwargs, 2, "dim", None), node)
+        if r is not None:
+            return r
     if f in ("cat", "stack"):
         items = it.concrete_items(args[0])
         dim = ext_arg(args, kwargs, 1, "dim", VConst(0))
@@ -832,6 +875,12 @@ def _call_torch(it, f, args, kwargs, node):
     if f in ("unsqueeze", "squeeze", "reshape", "clamp", "abs", "round", "flip", "where", "masked_select", "index_select"):
         if isinstance(args[0], VTens):
             return tensor_method(it, args[0], f, list(args[1:]), kwargs, node)
+    if f == "broadcast_tensors" and args and all(isinstance(a, VTens) for a in args):
+        # broadcasting views: the same values, repeated to the common shape
+        shp = tshape(args[0])
+        for a in args[1:]:
+            shp = broadcast(shp, tshape(a), it.site(node)) if shp is not None else None
+        return VTuple([VTens(a.obj, a.view + (("op", "to"),), shp if shp is not None else None) for a in args])
     if f == "is_tensor":
         return VConst(isinstance(args[0], VTens) and args[0].kind == "tensor") if not isinstance(args[0], VUnknown) else VUnknown("is_tensor", "bool")
     if f in ("double", "float64", "float32", "float", "long", "int64", "bool", "uint8", "int", "int32", "cdouble", "cfloat", "half"):
@@ -840,6 +889,9 @@ def _call_torch(it, f, args, kwargs, node):
         inst = Instance(None)
         inst.ext = "torch.optim.lr_scheduler"
         inst.attrs["optimizer"] = args[0] if args else None
+        # torch's schedulers take one initial step in their constructor: a fresh one reports last_epoch == 0, and every
+        # step() adds one (the count of steps taken by this scheduler)
+        inst.attrs["last_epoch"] = VConst(0)
         return VObj(inst)
     if f.startswith("optim."):
         inst = Instance(None)
@@ -939,6 +991,14 @@ def call_numpy(it, f, args, kwargs, node):
             axes = list(range(x.rank)) if axv is None else [axv % x.rank]
             items = [VSlice(VConst(None), VConst(None), VConst(-1)) if k in axes else VSlice(VConst(None), VConst(None), VConst(None)) for k in range(x.rank)]
             return index_tensor(it, x, items, node)
+    if f == "broadcast_to" and len(args) == 2:
+        shape = shape_from_args([args[1]])
+        x = args[0]
+        if isinstance(x, VTens) and shape is not None and x.shape is not None and tuple(x.shape) == tuple(shape):
+            return x  # nothing to broadcast: the same values (numpy hands out a read-only view)
+        xt = num_term(x) if not isinstance(x, VTens) else None
+        if xt is not None and shape is not None:
+            return it.fresh(xt, shape, "ndarray", node)  # a number repeated in every position
     if f == "flatnonzero" and len(args) == 1:
         r = call_numpy(it, "where", args, {}, node)
         return r.items[0] if isinstance(r, VTuple) else r
@@ -1257,6 +1317,7 @@ def call_builtin(it, f, args, kwargs, node):
         srcs = list(args)
         u.sources = srcs
         u.elem = lambda: VTuple([it.loop_elem(s, False, node) for s in srcs])
+        u.elem_first = lambda: VTuple([it.loop_elem(s, True, node) for s in srcs])
         return u
     if f == "reversed":
         items = it.concrete_items(args[0])
@@ -1296,6 +1357,12 @@ def call_builtin(it, f, args, kwargs, node):
                     return args[2]
                 raise
         return VUnknown("getattr", "unknown", getattr(args[0], "origin", None))
+    if f == "property":
+        inst = Instance(None)
+        inst.ext = "builtins.property"
+        inst.attrs["fget"] = args[0] if args else kwargs.get("fget", VConst(None))
+        inst.attrs["fset"] = args[1] if len(args) > 1 else kwargs.get("fset", VConst(None))
+        return VObj(inst)
     if f == "setattr":
         ok, nm = const_of(args[1])
         if ok:
@@ -1853,6 +1920,9 @@ def ext_method(it, objv, name, args, kwargs, node):
         it.ext_calls.append(["scheduler." + name, list(args), dict(kwargs), it.site(node), None])
         it.note_node("scheduler." + name, node)
         it.effect("ext", "lr", node, "scheduler.%s" % name)
+        if name == "step":
+            le = inst.attrs.get("last_epoch")
+            inst.attrs["last_epoch"] = VConst(le.value + 1) if isinstance(le, VConst) and isinstance(le.value, int) else VUnknown("scheduler.last_epoch", "int")
         return VConst(None)
     if inst.cls is None:
         return call_opaque(it, VUnknown("%s.%s" % (ext, name), "unknown", inst.origin), [objv] + list(args), kwargs, node)
